@@ -181,7 +181,9 @@ def run(rep, tier, rng):
         rep.dist("shapes", n)
         for req in (-1, f["code"]):
             ops = reader_ops(n, fi)
-            rcases.append(C.read_case(req, w["shp"]["buf"], w["shx"]["buf"], ops))
+            # every fourth history on sources (both files) that deliver a few bytes per read call
+            sched = [[16], [3], [7, 1], [19]][len(rcases) % 4] if len(rcases) % 4 == 1 else ()
+            rcases.append(C.read_case(req, w["shp"]["buf"], w["shx"]["buf"], ops, sched=sched))
             meta.append((fi, req, ops, True))
             rcases.append(C.read_case(req, w["shp"]["buf"], None, [("it", -1)]))
             meta.append((fi, req, [("it", -1)], False))
